@@ -142,7 +142,13 @@ class VSocket:
         if p is None or self.closed:
             raise OSError(9, "Bad file descriptor")
         w.point("recv:" + self.name, lambda: bool(p.buf) or p.wclosed or self.rd_shut or self.closed, xproc=True)
-        if self.rd_shut or not p.buf:
+        if self.rd_shut:
+            return b""
+        if not p.buf:
+            wp = p.wproc
+            if w.opts.get("rst_on_death") and wp is not None and not wp.alive and wp.exit_reason in ("cut", "killed"):
+                # a peer that died abruptly may answer with RST instead of FIN
+                raise ConnectionResetError(104, "Connection reset by peer")
             return b""
         k = min(n, len(p.buf))
         if k > 1 and w.short_reads:
@@ -163,7 +169,7 @@ class VSocket:
             raise BrokenPipeError(32, "Broken pipe")
         if p.rclosed:
             raise ConnectionResetError(104, "Connection reset by peer")
-        if p.cut_at is not None and p.total + len(data) > p.cut_at:
+        if p.cut_at is not None and p.total + len(data) >= p.cut_at:
             keep = p.cut_at - p.total
             p.buf += data[:keep]
             p.total += keep
